@@ -6,7 +6,8 @@ BATCH = 2
 BATCH_TIMEOUT = 3000
 RULE = ("[CORE CASES: a share of the cases (names core*) runs the same front-end and oracle on a port of the real LiteDRAMCrossbar + LiteDRAMController with the reference DRAM on DFI, refresh running, DFI protocol events of the reference model added to the witnesses] case = (ECC lane width 8/16/32/64 data bits, fault class, data words, seed) on LiteDRAMNativePortECC between a contract "
         "master and the pulsed core stub; faults are bit flips injected into the stub's store between the write and the "
-        "read: every single stored bit position of every lane incl. padding (exhaustive), every pair inside one lane "
+        "read (class `pipelined`: groups of 3..8 reads issued back to back so that faulted beats return in consecutive "
+        "cycles, all-single / all-double / alternating, judged on the counter deltas of the group): every single stored bit position of every lane incl. padding (exhaustive), every pair inside one lane "
         "(exhaustive for the 8-bit lane, sampled otherwise), pairs across two lanes, no flip, decoder disabled; byte-enable "
         "patterns all-ones / partial; black-box oracle per read on returned data and on the deltas of the sec / ded / "
         "we_error counters and sticky flags; non-trivial iff every code-bit position of the case's lanes was flipped at "
@@ -18,7 +19,7 @@ ASSUMPTIONS = [
     "unchanged for at most one position per lane (the property's exception), which is checked as a count, not by position",
 ]
 MIN_NONTRIVIAL = {"quick": 8, "thorough": 20}
-CLASSES = ["single", "double-in-lane", "double-across-lanes", "clean-and-disabled", "byte-enables"]
+CLASSES = ["single", "double-in-lane", "double-across-lanes", "clean-and-disabled", "byte-enables", "pipelined"]
 
 
 def cases(tier, seed):
@@ -49,7 +50,7 @@ def cases(tier, seed):
                     out.append(c)
     # the ECC port in front of a port of the real crossbar + controller + reference DRAM (faults flipped in the DRAM model)
     core = [(8, "single", [0, 1]), (8, "double-in-lane", None), (8, "byte-enables", None), (16, "single", [5]), (8, "clean-and-disabled", None),
-            (16, "double-across-lanes", None)]
+            (16, "double-across-lanes", None), (8, "pipelined", None)]
     if tier != "quick":
         core += [(8, "single", [2, 3]), (8, "single", [4, 5]), (8, "single", [6, 7]), (16, "double-in-lane", None), (16, "byte-enables", None),
                  (32, "single", [seed % 8]), (32, "double-in-lane", None)] + [(16, "single", [ln]) for ln in range(8) if ln != 5]
@@ -138,6 +139,24 @@ def run_case(c):
             ln = r.randrange(BC)
             f = [(ln, r.randrange(code_bits))] + ([(ln, r.randrange(code_bits))] if k % 2 else [])
             plan.append((list(set(f)), "disabled"))
+    elif cls == "pipelined":
+        # groups of reads issued back to back; every beat of a group carries a fault: all single (same bit position, random
+        # lanes), all double, or alternating; a clean beat now and then
+        groups = []
+        for g in range(36):
+            n = r.randint(3, 8)
+            p1 = r.randrange(code_bits)
+            style = ["singles", "doubles", "alternating", "singles-with-clean"][g % 4]
+            for j in range(n):
+                ln = r.randrange(BC)
+                if style == "singles" or (style == "alternating" and j % 2 == 0) or (style == "singles-with-clean" and j % 3 != 1):
+                    plan.append(([(ln, p1)], "single"))
+                elif style == "singles-with-clean":
+                    plan.append(([], "clean"))
+                else:
+                    a, b = r.sample(range(code_bits), 2)
+                    plan.append(([(ln, a), (ln, b)], "double"))
+            groups.append((len(plan) - n, n, p1, style))
     else:
         plan = [([], "we")] * 40
     nwords = len(plan)
@@ -190,6 +209,65 @@ def run_case(c):
             yield
         return rdata
 
+    def do_reads(addrs):
+        """reads issued back to back (a new command every cycle the port accepts one); returns the beats in order"""
+        i, got, guard = 0, [], 0
+        yield [port.cmd.valid.eq(1), port.cmd.we.eq(0), port.cmd.addr.eq(addrs[0])]
+        yield
+        while len(got) < len(addrs):
+            cr, rv, rd = yield [port.cmd.ready, port.rdata.valid, port.rdata.data]
+            stm = []
+            if i < len(addrs) and cr:
+                i += 1
+                stm.append(port.cmd.addr.eq(addrs[i]) if i < len(addrs) else port.cmd.valid.eq(0))
+            if rv:
+                got.append((rd, guard))
+            if stm:
+                yield stm
+            guard += 1
+            if guard > 4000:
+                res["v"].append(dict(kind="no-progress", we=0, addr=addrs[0], pipelined=len(addrs), beats=len(got)))
+                state["done"] = True
+                return None
+            yield
+        return got
+
+    def main_pipelined():
+        uncounted = set()
+        for (k0, n, p1, style) in groups:
+            for k in range(k0, k0 + n):
+                w = store.get(k)
+                for (ln, p) in plan[k][0]:
+                    bit = ln * slot + p
+                    w[bit // 8] ^= 1 << (bit % 8)
+            before = yield counters
+            got = yield from do_reads(list(range(k0, k0 + n)))
+            if state["done"]:
+                return
+            yield from wait(6)
+            after = yield counters
+            d_sec, d_ded = after[0] - before[0], after[1] - before[1]
+            kinds = [plan[k][1] for k in range(k0, k0 + n)]
+            ns, nd = kinds.count("single"), kinds.count("double")
+            res["judged"] += n
+            res["consecutive_beats"] = res.get("consecutive_beats", 0) + sum(1 for j in range(1, n) if got[j][1] == got[j - 1][1] + 1)
+            w_ = dict(first_index=k0, kinds=kinds, single_position=p1, lane_bits=lane, sec_delta=d_sec, ded_delta=d_ded,
+                      beat_cycles=[t for (_, t) in got])
+            for j, k in enumerate(range(k0, k0 + n)):
+                if kinds[j] != "double" and got[j][0] != data[k]:
+                    res["v"].append(dict(w_, problem="pipelined reads: %s beat %d returned wrong data" % (kinds[j], j)))
+                    break
+            if d_ded != nd:
+                res["v"].append(dict(w_, problem="pipelined reads: %d beats with a double flip, uncorrectable count moved by %d" % (nd, d_ded)))
+            if d_sec == 0 and ns:
+                uncounted.add(p1)
+            elif d_sec != ns:
+                res["v"].append(dict(w_, problem="pipelined reads: %d beats with a single flip, corrected count moved by %d" % (ns, d_sec)))
+        if len(uncounted) > 1:
+            res["v"].append(dict(kind="single-flips-not-counted-as-corrected", positions=sorted(uncounted), lane_bits=lane,
+                                 note="pipelined groups; at most the overall parity bit may go uncounted"))
+        state["done"] = True
+
     def main():
         yield port.rdata.ready.eq(1)
         yield from wait(3)
@@ -221,6 +299,9 @@ def run_case(c):
         yield from wait(5)
         if cls == "byte-enables":
             state["done"] = True
+            return
+        if cls == "pipelined":
+            yield from main_pipelined()
             return
         # ---- inject faults, read back one at a time
         for k, (flips, kind) in enumerate(plan):
@@ -302,7 +383,7 @@ def run_case(c):
         if len(pos) > 1:
             v.append(dict(kind="uncounted-position-differs-between-lanes", positions=sorted(pos)))
     st = dict(reads_or_writes_judged=res["judged"], cycles=cycles, code_bits=code_bits, slot_bits=slot, lanes=BC,
-              single_positions_flipped=len(res["positions"]), uncounted_single_positions=sorted(set(p for ps in res["sec_exceptions"].values() for p in ps)))
+              consecutive_faulted_beats=res.get("consecutive_beats", 0), single_positions_flipped=len(res["positions"]), uncounted_single_positions=sorted(set(p for ps in res["sec_exceptions"].values() for p in ps)))
     if cls == "single":
         nontrivial = len(res["positions"]) >= code_bits * len(c.get("lanes_subset") or range(BC))
     else:
